@@ -12,8 +12,9 @@ from props import parser as P, genlexer
 CORE_RULES = {"Root": [gen_lex.named("Ident", "[a-zA-Z]+"), gen_lex.named("Int", "[0-9]+"), gen_lex.named("Punct", "[^\\sa-zA-Z0-9#]"),
                        gen_lex.named("Comment", "#[a-z]*#"), gen_lex.named("WS", "\\s+")]}
 
-PARSE_EPS = ["ParseString", "ParseBytes", "Parse", "ParseString+Trace", "ParseBytes+Trace", "ParseFromLexer"]
-LEX_EPS = ["Lex", "def.Lex", "def.LexString", "def.LexBytes"]
+PARSE_EPS = ["ParseString", "ParseBytes", "Parse", "ParseString+Trace", "ParseBytes+Trace", "ParseFromLexer",
+             "Parse(DataErrReader)", "Parse(OneByteReader)", "Parse(named reader)", "Parse(no filename, reader named fn)"]
+LEX_EPS = ["Lex", "def.Lex", "def.LexString", "def.LexBytes", "Lex(DataErrReader)", "Lex(named reader)", "def.Lex(DataErrReader)"]
 
 
 def run(pid, tier, args):
@@ -89,8 +90,12 @@ def run(pid, tier, args):
                 if not bad and variant in ("core", "generated") and len(set(louts.values())) > 1:
                     other = next(ep for ep in louts if louts[ep] != louts["Lex"])
                     bad = "Parser.Lex gives %s but %s gives %s" % (louts["Lex"][:100], other, louts[other][:100])
+                pl = {ep: eps[ep] for ep in ("Lex", "Lex(DataErrReader)", "Lex(named reader)") if ep in eps}
+                if not bad and len(set(pl.values())) > 1:
+                    other = next(ep for ep in pl if pl[ep] != pl["Lex"])
+                    bad = "Parser.Lex gives %s but %s gives %s" % (pl["Lex"][:100], other, pl[other][:100])
                 if not bad and variant.endswith("upper"):
-                    dl = {ep: eps[ep] for ep in ("def.Lex", "def.LexString", "def.LexBytes") if ep in eps}
+                    dl = {ep: eps[ep] for ep in ("def.Lex", "def.LexString", "def.LexBytes", "def.Lex(DataErrReader)") if ep in eps}
                     if len(set(dl.values())) > 1:
                         bad = "the definition's Lex/LexString/LexBytes disagree"
                 s_after, s_out = spec.get(key, (None, None))
